@@ -1,0 +1,27 @@
+//go:build verif
+
+package dhcp
+
+// requestPreWriteForVerif, when set, runs inside handleRequest between the read of the client's
+// lease and the write of the new one: where another goroutine's packet handler for the same
+// client (a second copy of the REQUEST, a RELEASE, a DECLINE) or the expiry sweep can run in
+// production (server4 runs one goroutine per packet). No lock is held at that point.
+var requestPreWriteForVerif = map[*Server]func(){}
+
+func (s *Server) verifRequestPreWrite() {
+	if f := requestPreWriteForVerif[s]; f != nil {
+		// one shot: the function usually handles another packet, which must not recurse into it
+		delete(requestPreWriteForVerif, s)
+		f()
+	}
+}
+
+// SetRequestPreWriteForVerif installs (or, with nil, removes) the function run in that window
+// by the NEXT handleRequest that reaches it. Harnesses are single-threaded.
+func (s *Server) SetRequestPreWriteForVerif(f func()) {
+	if f == nil {
+		delete(requestPreWriteForVerif, s)
+		return
+	}
+	requestPreWriteForVerif[s] = f
+}
